@@ -16,13 +16,55 @@ Z3 = "z3-new"
 CVC5 = "/usr/bin/cvc5"
 
 
+_SK = [0]
+
+
+def skolemize_goal(goal):
+    """Replace the universally quantified variables in POSITIVE positions of the goal (under and / => / forall
+    only) by fresh constants: valid(goal) <=> valid(result).  For every marker term (uninterpreted boolean
+    `marker_*`, which occurs in triggers only) in the patterns of a removed quantifier the instance for the fresh
+    constants is returned as an extra hypothesis - a definitional extension that lets marker-triggered hypotheses
+    fire for the goal's own instance.  -> (goal', [marker facts])"""
+    marks = []
+
+    def walk(e):
+        if z3.is_quantifier(e) and e.is_forall():
+            n = e.num_vars()
+            cs = []
+            for i in range(n):
+                _SK[0] += 1
+                cs.append(z3.Const("sk!%s!%d" % (e.var_name(i), _SK[0]), e.var_sort(i)))
+            rev = list(reversed(cs))
+            for pi in range(e.num_patterns()):
+                for t in e.pattern(pi).children():
+                    t2 = z3.substitute_vars(t, *rev)
+                    if z3.is_app(t2) and t2.decl().name().startswith("marker_"):
+                        marks.append(t2)
+            return walk(z3.substitute_vars(e.body(), *rev))
+        if z3.is_and(e):
+            return z3.And(*[walk(c) for c in e.children()])
+        if z3.is_implies(e):
+            a, b = e.children()
+            return z3.Implies(a, walk(b))
+        return e
+
+    return walk(goal), marks
+
+
 def vc_text(hyps, goal, distinct=()):
     s = z3.Solver()
     for h in hyps:
         s.add(h)
     if len(distinct) > 1:
         s.add(z3.Distinct(*distinct))
-    s.add(z3.Not(goal))
+    # only goals that carry marker triggers are rewritten (the solvers' own preprocessing of a quantified goal
+    # is otherwise at least as good: z3's default configuration decides some goals only in the original form)
+    g2, marks = skolemize_goal(goal)
+    if not marks:
+        g2 = goal
+    for m in marks:
+        s.add(m)
+    s.add(z3.Not(g2))
     return "(set-logic ALL)\n" + s.to_smt2()
 
 
